@@ -22,10 +22,18 @@ let z_of_string (s : string) : z =
   String.iter (fun c -> v := Z.add (Z.mul !v ten) (z_of_int (Char.code c - 48))) body;
   if neg then Z.opp !v else !v
 let n_of_string (s : string) : n = Z.to_N (z_of_string s)
-let rec string_of_pos (p : positive) : string =
-  (* decimal rendering through OCaml ints is enough: every printed value is < 2^62 *)
-  string_of_int (int_of_pos p)
-let string_of_z (x : z) : string = string_of_int (int_of_z x)
+(* decimal rendering of arbitrarily large positives: double-and-add on a little-endian digit list *)
+let dec_double_add (digits : int list) (carry0 : int) : int list =
+  let rec go ds carry = match ds with
+    | [] -> if carry = 0 then [] else [carry]
+    | d :: t -> let v = 2 * d + carry in (v mod 10) :: go t (v / 10) in
+  go digits carry0
+let rec dec_of_pos (p : positive) : int list =
+  match p with XH -> [1] | XO q -> dec_double_add (dec_of_pos q) 0 | XI q -> dec_double_add (dec_of_pos q) 1
+let string_of_pos (p : positive) : string =
+  String.concat "" (List.rev_map string_of_int (dec_of_pos p))
+let string_of_z (x : z) : string =
+  match x with Z0 -> "0" | Zpos p -> string_of_pos p | Zneg p -> "-" ^ string_of_pos p
 
 let pattern len a b : n list = List.init len (fun i -> small.((a + b * i) land 255))
 
@@ -159,7 +167,7 @@ let frames_summary (fs : frame list) : string =
   match fs with
   | [] -> "-"
   | _ ->
-    String.concat "/" (List.map (fun f ->
+    String.concat "~" (List.map (fun f ->
         let c = int_of_n (byte_of_cmd f.fcmd) in
         match f.fcmd with
         | UpdatePaddingScheme -> "upd:" ^ md5_str f.fdata
@@ -239,8 +247,8 @@ let drv_c19 args =
                | Some raw ->
                  let (p', cs') = on_update !p s.cs raw in
                  p := p'; s.cs <- cs';
-                 "upd:" ^ md5_str raw ^ "/"
-               | None -> "") ^ "10:v=2/9:0:0" in
+                 "upd:" ^ md5_str raw ^ "~"
+               | None -> "") ^ "10:v=2~9:0:0" in
           Buffer.add_string out (Printf.sprintf "K %s %s " b srv_txt)
         | "P:" ->
           (match String.split_on_char ':' body with
